@@ -270,8 +270,9 @@ def c06(tier):
     # two When / WhenNot subscriptions sharing one context, 3 states, two single-state mutations
     for k1 in (0, 1):
         for k2 in (0, 1):
-            for s1 in range(1, 8):
+            for s1 in ((3, 7) if tier == "quick" else range(1, 8)):
                 units.append(U(MACH, "VerifC06SharedCtx", weight=5, n=3, schema=0, k1=k1, k2=k2, s1=s1))
+    units.append(U(MACH, "VerifC06QueryCtx", weight=3, n=2, schema=0))
     codes = (16,) if tier == "quick" else (16, 20, 17, 8, 24)
     kinds = (6,) if tier == "quick" else (0, 1, 2, 6)
     for kind in kinds:
@@ -288,10 +289,13 @@ def c06(tier):
 
 def c08(tier):
     units = shards("VerifC08Fault", 3, weight=4, n=2) + shards("VerifC08Fault", 3, weight=6, n=2, double=1)
+    # a second fault inside the Exception state's own handlers (1: ExceptionEnter, 2: ExceptionState)
+    units += shards("VerifC08Fault", 1, weight=2, n=2, excfault=1) + shards("VerifC08Fault", 1, weight=2, n=2, excfault=2)
     return {"units": units, "bounds": dict(MACH_BOUNDS, fault="one panic at any of the first 6 handler calls of one mutation (negotiation or final handler), on a machine without an "
-                                       "earlier fault or with Exception still active from a first fault (sequence of two faults)"),
+                                       "earlier fault or with Exception still active from a first fault (sequence of two faults); a second fault inside ExceptionEnter / ExceptionState of the recovery mutation "
+                                       "(the handler goroutine's death and restart are tracked: a handler call without a live loop is a wedge; natively a 3 s watchdog)"),
             "outside": ["that a real panic cannot escape the handler goroutine (the fault is delivered on handlerPanic as handlerLoop's recover does)", "handler timeouts, deadlines, backoff timing",
-                        "sequences of more than two faults, faults inside Exception handlers", "PanicToErr for forked code"], "assumptions": MACH_ASSUME}
+                        "sequences of more than two faults", "PanicToErr for forked code"], "assumptions": MACH_ASSUME}
 
 
 def c11(tier):
